@@ -850,8 +850,15 @@ impl Fiber {
       .expect("Unable to write to stderr");
     }
 
-    let message = error[0].to_obj().to_str();
-    writeln!(log, "{}: {}", &*error.class().name(), &*message).expect("Unable to write to stderr");
+    // the message of an error class whose init never called the
+    // inherited one is whatever the field was left as
+    let message = error[0];
+    if message.is_obj_kind(ObjectKind::String) {
+      let message = message.to_obj().to_str();
+      writeln!(log, "{}: {}", &*error.class().name(), &*message).expect("Unable to write to stderr");
+    } else {
+      writeln!(log, "{}: {}", &*error.class().name(), message).expect("Unable to write to stderr");
+    }
   }
 
   /// Get a value on the stack
